@@ -473,6 +473,11 @@ def run(ctx):
     n_ib = _c01i.index_bound_sites(ctx, "C16/index-bound")
     ctx.floor("C16/index-bound", "set_value_at call sites", n_ib, 6)
     _c09s.rule_same_slot(ctx, R="C16/same-slot")
+    # src/dir_section.rs is one of this property's anchors: a returned location names bytes of the image, and the copy of the image the
+    # directory section maintains in the destination must keep every byte at its offset too — the flush mark advances only past bytes that
+    # were handed over (rules/families.py, destination family; seeded C16-s moved the mark update in front of the fallible write)
+    from rules import families as _famd
+    _famd.destination(ctx, "C16")
 
 
 def thorough(ctx):
